@@ -64,19 +64,21 @@ CORR = {"mint_above_share": corrupt_mint_plus, "pull_one_less": corrupt_pull_les
 
 
 def expect_share(S, d0, d1, p0, p1, sender, wl, m0, m1):
+    """(kind, exact): kind 'err' = must be refused; 'ok' = exact share, must be returned; 'abort_ok' = an abort is
+    permitted (intermediate overflow) but a returned value must still be the exact share if that is representable."""
     if S == 0:
         if sender not in wl:
             return ("err", "whitelist")
         if d0 < m0 or d1 < m1:
             return ("err", "minimum")
         if d0 * d1 >= U128:
-            return ("abort", "overflow")
+            return ("abort_ok", isqrt(d0 * d1))
         return ("ok", isqrt(d0 * d1))
     if p0 == 0 or p1 == 0:
-        return ("abort", "zero_reserve")
+        return ("abort_ok", None)
     a, b = d0 * S // p0, d1 * S // p1
     if a > M128 or b > M128:
-        return ("abort", "overflow")
+        return ("abort_ok", min(a, b) if min(a, b) <= M128 else None)
     return ("ok", min(a, b))
 
 
@@ -136,8 +138,11 @@ def fn_leg(acc, srv, rng, n):
                 bad = "expected share %d, got %s %s" % (exp[1], got, resp.get("e", "")[:80])
             elif int(resp["v"]) != exp[1]:
                 bad = "share %s != exact %d" % (resp["v"], exp[1])
-        elif got == "ok":
-            bad = "expected %s (%s) but returned %s" % (exp[0], exp[1], resp["v"])
+        elif exp[0] == "err":
+            if got == "ok":
+                bad = "must be refused (%s) but returned %s" % (exp[1], resp["v"])
+        elif got == "ok" and (exp[1] is None or int(resp["v"]) != exp[1]):
+            bad = "returned %s where the exact share is %s" % (resp["v"], exp[1])
         case = {"kind": "fn", "f": "lp_share", "a": reqs[0][1] and [str(c[0]), str(c[1]), str(c[2]), str(c[3]), str(c[4]), c[5], c[6], str(c[7]), str(c[8])],
                 "observed": resp, "family": tag}
         if bad:
